@@ -45,7 +45,7 @@ Definition stock_base : screen_spec :=
      sc_refresh := []; sc_show := []; sc_closed := [];
      sc_input := []; sc_input_default := ([], None);      (* UIScreen.input returns the key *)
      sc_prompt_none := false; sc_input_required := true; sc_no_separator := false; sc_skip_check := false;
-     sc_pages := 0; sc_answer0 := AnsNoAttr; sc_custom := [] |}.
+     sc_pages := 0; sc_answer0 := AnsNoAttr; sc_custom := []; sc_setup_cmds := [] |}.
 
 (* ---------------------------------------------------------------- YesNoDialog
    input(args, key):  key == "yes": _response = True;  return PROCESSED_AND_CLOSE
@@ -58,7 +58,7 @@ Definition yes_no_dialog_spec : screen_spec :=
      sc_input_default := ([], Some RDiscarded);
      sc_prompt_none := false; sc_input_required := true; sc_no_separator := false; sc_skip_check := false;
      sc_pages := 0; sc_answer0 := AnsOther;     (* self._response = None in __init__ *)
-     sc_custom := [] |}.
+     sc_custom := []; sc_setup_cmds := [] |}.
 
 (* ---------------------------------------------------------------- ErrorDialog
    input(args, key): sys.exit(1)   = [SSysExit];  no `answer`;  prompt(): Prompt("Press ENTER to exit") *)
@@ -66,7 +66,7 @@ Definition error_dialog_spec : screen_spec :=
   {| sc_setup := []; sc_refresh := []; sc_show := []; sc_closed := [];
      sc_input := []; sc_input_default := ([SSysExit], Some RNone);
      sc_prompt_none := false; sc_input_required := true; sc_no_separator := false; sc_skip_check := false;
-     sc_pages := 0; sc_answer0 := AnsNoAttr; sc_custom := [] |}.
+     sc_pages := 0; sc_answer0 := AnsNoAttr; sc_custom := []; sc_setup_cmds := [] |}.
 
 (* ---------------------------------------------------------------- HelpScreen
    input(args, key): return PROCESSED_AND_CLOSE;  no `answer`;  prompt(): Prompt("Press ENTER to return").
@@ -75,7 +75,7 @@ Definition help_screen_spec : screen_spec :=
   {| sc_setup := []; sc_refresh := []; sc_show := []; sc_closed := [];
      sc_input := []; sc_input_default := ([], Some RClose);
      sc_prompt_none := false; sc_input_required := true; sc_no_separator := false; sc_skip_check := false;
-     sc_pages := 0; sc_answer0 := AnsNoAttr; sc_custom := [] |}.
+     sc_pages := 0; sc_answer0 := AnsNoAttr; sc_custom := []; sc_setup_cmds := [] |}.
 
 (* ---------------------------------------------------------------- GetInputScreen / GetPasswordInputScreen
    input(args, key): if not self._test_input(key): return DISCARDED
@@ -103,7 +103,7 @@ Definition get_input_screen_spec (conds : list acond) : screen_spec :=
      sc_input := map (fun k => (k, ([], accept_ret (test_input conds k)))) (flat_map cond_keys conds);
      sc_input_default := ([], Some (accept_ret (forallb cond_default conds)));
      sc_prompt_none := false; sc_input_required := true; sc_no_separator := false; sc_skip_check := false;
-     sc_pages := 0; sc_answer0 := AnsNoAttr; sc_custom := [] |}.
+     sc_pages := 0; sc_answer0 := AnsNoAttr; sc_custom := []; sc_setup_cmds := [] |}.
 
 (* GetPasswordInputScreen = GetInputScreen with hide_user_input = True (the line is read by getpass) *)
 Definition get_password_input_screen_spec (conds : list acond) : screen_spec := get_input_screen_spec conds.
@@ -121,7 +121,7 @@ Definition password_dialog_spec : screen_spec :=
      sc_input := [ ([], ([], RDiscarded)) ]; sc_input_default := ([SSetAnswer AnsOther], Some RClose);
      sc_prompt_none := true; sc_input_required := true; sc_no_separator := false; sc_skip_check := false;
      sc_pages := 0; sc_answer0 := AnsOther;     (* self._password = None in __init__ *)
-     sc_custom := [] |}.
+     sc_custom := []; sc_setup_cmds := [] |}.
 
 (* ---------------------------------------------------------------- the kinds the harness can ask for *)
 Inductive adv_kind :=
